@@ -39,7 +39,7 @@ LEAN_MODULE = 'Pycel.Props.C12'
 NS = 'Pycel.Validate.'
 THEOREMS = [NS + t for t in (
     'C12_sound', 'C12_sound_mismatch', 'C12_sound_engine', 'C12_complete', 'C12_blame', 'C12_blame_total',
-    'C12_failed_justified', 'C12_no_skip', 'C12_no_skip_reach', 'C12_terminates',
+    'C12_failed_justified', 'C12_failed_blame', 'C12_failed_blame_set', 'C12_no_skip', 'C12_no_skip_reach', 'C12_terminates',
     'closeVal_refl', 'closeVal_logical_number', 'closeVal_tol_zero', 'C12_strict_tol_counterexample',
     'C12_sound_inst')]
 DESIGN_REF = 'DESIGN.md §7 C12'
